@@ -170,7 +170,7 @@ Definition demo_prog : list bstmt :=
 Definition demo_facts (remove guarded : bool) : build_facts :=
   {| bf_prog := fun _ => demo_prog; bf_remove_before := fun _ => remove;
      bf_create_resizes_existing := true; bf_alloc_zeroes := true; bf_open_guarded := guarded;
-     bf_save_mode := InPlace |}.
+     bf_save_mode := InPlace; bf_stamp_last := true |}.
 
 Definition demo_ext (g : string) : N := if String.eqb g "value_trie" then 5000 else 100.
 
@@ -204,6 +204,38 @@ Proof. split; exists 1%nat; vm_compute; (split; [lia | reflexivity]). Qed.
     guarded open satisfies [builder_ok] *)
 Example builder_ok_demo : builder_ok (demo_facts true true) KReverse = true.
 Proof. reflexivity. Qed.
+
+(** ** the stamp of WorkspaceUpdate *)
+
+Lemma stamp_after_updates xs : forall old, stamp_after (map WUpdate xs) old = old.
+Proof. induction xs as [|x r IH]; intro old; cbn; auto. Qed.
+
+Lemma firstn_map_updates n xs : firstn n (map WUpdate xs) = map WUpdate (firstn n xs).
+Proof. apply firstn_map. Qed.
+
+(** the stamp is written after every schema update: a killed deployment leaves
+    var/last_build_time as it was, so whatever made this deployment start
+    (DetectModifications or a forced run) makes the next start-up deploy again *)
+Theorem killed_deploy_is_redetected now xs old n latest :
+  (n < List.length (ws_effs true now xs))%nat ->
+  stamp_after (firstn n (ws_effs true now xs)) old = old /\
+  detect_modifications latest (stamp_after (firstn n (ws_effs true now xs)) old) = detect_modifications latest old.
+Proof.
+  intro Hn. unfold ws_effs in *. rewrite app_length, map_length in Hn. cbn in Hn.
+  assert (stamp_after (firstn n (map WUpdate xs ++ [WStamp now])) old = old) as E.
+  { rewrite firstn_app, map_length. replace (n - List.length xs)%nat with 0%nat by lia. cbn [firstn]. rewrite app_nil_r.
+    rewrite firstn_map_updates. apply stamp_after_updates. }
+  rewrite E. split; reflexivity.
+Qed.
+
+(** written first, the stamp survives the kill and hides the unfinished work from
+    every later start-up deployment until a source changes *)
+Theorem stamp_first_refuted :
+  exists n, (n < List.length (ws_effs false 2000 [1%N; 2%N]))%nat /\
+    stamp_after (firstn n (ws_effs false 2000 [1; 2])) 0 = 2000 /\
+    detect_modifications 1500 0 = true /\
+    detect_modifications 1500 (stamp_after (firstn n (ws_effs false 2000 [1; 2])) 0) = false.
+Proof. exists 1%nat. vm_compute. repeat split. lia. Qed.
 
 (** ** compiled YAML *)
 
